@@ -487,6 +487,12 @@ impl WorkStealingExecutor {
             }
         }
 
+        // 4. Drain our own steal queue: balance() parks tasks there, and nobody else
+        //    polls it when there is no other worker (or the others stay busy).
+        if let Some(task) = my_queue.steal() {
+            return Some(task);
+        }
+
         None
     }
 
